@@ -111,6 +111,7 @@ def fixed_corpus(u):
                                     Field(5, ('ptr', ('string',)), 'optional', nocopy=True)]))
     spellings(u, add)
     invalid_defs(u, add)
+    poison_defs(u, add)
     add('nocopy', Struct('NoCopyNest', [Field(1, ('ptr', ('struct', 'NoCopy')), 'optional'), Field(2, ('list', ('ptr', ('struct', 'NoCopy'))))]))
     return groups
 
@@ -267,6 +268,32 @@ def invalid_defs(u, add):
                        ('map[string]*Bad1', '(map string (ptr (struct %d Bad1)))' % b.sid, 'map<string:Bad1>'),
                        ('map[*Bad1]int32', '(map (ptr (struct %d Bad1)) int32)' % b.sid, 'map<Bad1:i32>'), ('Bad1', '(struct %d Bad1)' % b.sid, 'Bad1')]:
         bad([Field(1, None, go_text=gt, model_text=mt, tag='frugal:"1,optional,%s"' % an), Field(2, ('i32',))], group='invalid-nested')
+
+
+def poison_defs(u, add):
+    """mutually nested definitions that reach an invalid one: registration of any of them
+    must fail, whatever was registered (or failed to register) before (C07 / C13)"""
+    def bad(name, fields):
+        add('poison', Struct(name, fields, invalid=True))
+    # declared in an order that lets every Go type refer to the others: Go allows forward references
+    cb = Struct('PCBad', [Field(1, None, go_text='uint32', model_text='(unsup 5)', tag='frugal:"1,default,i32"')], invalid=True)
+    add('poison', cb)
+    names = ['PA', 'PB', 'PQ', 'PX', 'PY', 'PZ']
+    # sids are assigned in order of addition: reserve them first
+    base = len(u.structs)
+    sid = {n: base + i for i, n in enumerate(names)}
+    sid['PCBad'] = cb.sid
+    def P(n):
+        return dict(go_text='*' + n, model_text='(ptr (struct %d %s))' % (sid[n], n), tag_an=n)
+    def fld(fid, n, req='optional'):
+        p = P(n)
+        return Field(fid, None, go_text=p['go_text'], model_text=p['model_text'], tag='frugal:"%d,%s,%s"' % (fid, req, n))
+    bad('PA', [fld(1, 'PB')])
+    bad('PB', [fld(1, 'PA'), fld(2, 'PCBad')])
+    bad('PQ', [fld(1, 'PA'), Field(2, ('i32',))])
+    bad('PX', [fld(1, 'PY'), fld(2, 'PCBad')])
+    bad('PY', [fld(1, 'PX')])
+    bad('PZ', [Field(1, None, go_text='[]*PY', model_text='(slice (ptr (struct %d PY)))' % sid['PY'], tag='frugal:"1,default,list<PY>"')])
 
 
 def rand_type(rng, u, names, depth, pos):
